@@ -5,11 +5,21 @@
 #[cfg(kani)]
 mod refmodel;
 #[cfg(kani)]
+mod stubs;
+#[cfg(kani)]
 mod c01;
 #[cfg(kani)]
 mod c03;
 #[cfg(kani)]
 mod c04;
+#[cfg(kani)]
+mod c05;
+#[cfg(kani)]
+mod c11;
+#[cfg(kani)]
+mod c12;
+#[cfg(kani)]
+mod c13;
 #[cfg(kani)]
 mod c17;
 #[cfg(kani)]
